@@ -1,11 +1,19 @@
 import PytezosModel.Michelson.Interp.Syntax
 import PytezosModel.Michelson.Collections
+import PytezosModel.Generated.C01
 /-! `Impl.exec` — mirror of the `execute` methods of src/pytezos/michelson/instructions/*.py over the
 `MichelsonStack` of src/pytezos/michelson/stack.py (`items` + `protected` prefix).
 
 The dynamic `assert_type_equal` checks that compare *runtime type objects* (EXEC, APPLY, CONS, COMPARE,
 `from_items`) are mirrored (`typeOf`); class checks (`assert_type_in`, `dispatch_types`) are the pattern
-matches.  Not mirrored: `stdout` traces, the returned instruction objects. -/
+matches.  Not mirrored: `stdout` traces, the returned instruction objects.
+
+What is *read from the source* instead of being written here (`Generated.C01`, regenerated on every run by
+translator/c01.py): the `dispatch_types` tables of ADD / SUB / MUL / EDIV / NEG / AND / OR / XOR / NOT / CONCAT and the
+operand classes of SIZE / SLICE (`Impl.dispatch` is the lookup `dispatch_types` performs), the shift bound, the
+`from_value` guards of the integer classes, `count >= 2` of PAIR n / UNPAIR n, the `count - 2` handed to `unpairn_comb`
+and the index `MichelsonStack.push / pop / peek` use.  That these agree with the reference (`Spec` / `Typing`) is
+`Proofs/InterpTables.lean`; editing the source changes the model and re-opens the corresponding obligation there. -/
 namespace Interp
 
 structure Stack where
@@ -15,6 +23,13 @@ structure Stack where
 
 namespace Stack
 
+/-- the index expression read from stack.py (`self.protected` or `0`); anything else was not recognised: no such item -/
+def idx (o : Option Generated.C01.StackIdx) (s : Stack) : Nat :=
+  match o with
+  | some .atProtected => s.protected_
+  | some .atZero => 0
+  | none => s.items.length + 1
+
 /-- `protect(count)` -/
 def protect (s : Stack) (count : Nat) : Res Stack :=
   if s.items.length < count then .stuck else .ok { s with protected_ := s.protected_ + count }
@@ -23,22 +38,24 @@ def protect (s : Stack) (count : Nat) : Res Stack :=
 def restore (s : Stack) (count : Nat) : Res Stack :=
   if s.protected_ < count then .stuck else .ok { s with protected_ := s.protected_ - count }
 
-/-- `push(item)`: `items.insert(protected, item)` (Python's insert clamps the index) -/
+/-- `push(item)`: `items.insert(protected, item)` (Python's insert clamps the index; the index is read from the source) -/
 def push (s : Stack) (v : Val) : Stack :=
-  { s with items := s.items.take s.protected_ ++ v :: s.items.drop s.protected_ }
+  { s with items := s.items.take (s.idx Generated.C01.pushIndex) ++ v :: s.items.drop (s.idx Generated.C01.pushIndex) }
 
 /-- `peek()` -/
 def peek (s : Stack) : Res Val :=
   if s.items.isEmpty then .stuck
-  else match s.items[s.protected_]? with
+  else match s.items[s.idx Generated.C01.peekIndex]? with
     | some v => .ok v
     | none => .stuck
 
-/-- `pop(count)`: `[items.pop(protected) for _ in range(count)]` -/
+/-- `pop(count)`: `[items.pop(protected) for _ in range(count)]` (the index is read from the source; popping past the
+end of the list raises) -/
 def pop (s : Stack) (count : Nat) : Res (List Val × Stack) :=
   if s.items.length - s.protected_ < count then .stuck
-  else .ok ((s.items.drop s.protected_).take count,
-            { s with items := s.items.take s.protected_ ++ (s.items.drop s.protected_).drop count })
+  else if s.items.length - s.idx Generated.C01.popIndex < count then .stuck
+  else .ok ((s.items.drop (s.idx Generated.C01.popIndex)).take count,
+            { s with items := s.items.take (s.idx Generated.C01.popIndex) ++ (s.items.drop (s.idx Generated.C01.popIndex)).drop count })
 
 def pop1 (s : Stack) : Res (Val × Stack) :=
   (s.pop 1).bind fun p =>
@@ -62,54 +79,107 @@ end Stack
 
 namespace Impl
 
-/-- `XType.from_value(v)` for the integer classes: `nat` asserts `v ≥ 0`; `mutez` asserts `v ≥ 0` and at most 63 bits
-(the assertion failing is the *runtime failure* outcome: the operation fails, e.g. on mutez overflow) -/
+open Generated.C01 (Prim Conv Guard)
+
+/-- `cls.prim` of the runtime class of a value of type `t`, for the classes that occur in the tables -/
+def primOf : Ty → Option Prim
+  | .int => some .int
+  | .nat => some .nat
+  | .mutez => some .mutez
+  | .timestamp => some .timestamp
+  | .bytes => some .bytes
+  | .bool => some .bool
+  | .string => some .string
+  | .list _ => some .list
+  | .set _ => some .set
+  | .map _ _ => some .map
+  | _ => none
+
+/-- the parameter-free classes of the model by prim (a BLS class as a result is outside the model) -/
+def tyOfPrim : Prim → Option Ty
+  | .int => some .int
+  | .nat => some .nat
+  | .mutez => some .mutez
+  | .timestamp => some .timestamp
+  | .bytes => some .bytes
+  | .bool => some .bool
+  | .string => some .string
+  | _ => none
+
+def primsOf : List Ty → Option (List Prim)
+  | [] => some []
+  | t :: ts =>
+    match primOf t, primsOf ts with
+    | some p, some ps => some (p :: ps)
+    | _, _ => none
+
+def lookupRow {α : Type} (key : List Prim) : List (List Prim × α) → Option α
+  | [] => none
+  | (k, v) :: rest => if k = key then some v else lookupRow key rest
+
+/-- `dispatch_types(*args, mapping=…)`: `key = tuple(arg.prim for arg in args)`, `assert key in mapping`, `mapping[key]`
+(`none`: the assertion fails — or the table could not be read from the source) -/
+def dispatch {α : Type} (table : Option (List (List Prim × α))) (args : List Ty) : Option α :=
+  match table, primsOf args with
+  | some rows, some key => lookupRow key rows
+  | _, _ => none
+
+/-- one result class -/
+def dispatch1 (table : Option (List (List Prim × List Prim))) (args : List Ty) : Option Ty :=
+  match dispatch table args with
+  | some [r] => tyOfPrim r
+  | _ => none
+
+/-- one guard of a `from_value`: `assert value >= 0`; `if value.bit_length() > n: raise` (`|v| ≥ 2^n`) -/
+def guardOk (v : Int) : Guard → Bool
+  | .assertNonneg => decide (0 ≤ v)
+  | .overflowIfBitsGt n => decide (-(2 ^ n) < v ∧ v < 2 ^ n)
+
+def guardsOf (p : Prim) : Option (List Guard) :=
+  match Generated.C01.guards with
+  | some rows => (rows.find? (fun r => r.1 = p)).map (·.2)
+  | none => none
+
+/-- `XType.from_value(v)` for the integer classes, with the guards read from the source: `nat` asserts `v ≥ 0`; `mutez`
+asserts `v ≥ 0` and at most 63 bits (a guard failing is the *runtime failure* outcome: the operation fails, e.g. on mutez
+overflow) -/
 def numFromValue (t : Ty) (v : Int) : Res Val :=
   match t with
-  | .int | .timestamp => .ok (.num t v)
-  | .nat => if v ≥ 0 then .ok (.num .nat v) else .rtfail
-  | .mutez => if v ≥ 0 ∧ v < 2 ^ 63 then .ok (.num .mutez v) else .rtfail
+  | .int | .nat | .mutez | .timestamp =>
+    match (primOf t).bind guardsOf with
+    | some gs => if gs.all (guardOk v) then .ok (.num t v) else .rtfail
+    | none => .stuck
   | _ => .stuck
 
 /-- `dispatch_types` table of ADD (integer classes only; BLS is C21) -/
-def addTy : Ty → Ty → Option Ty
-  | .nat, .nat => some .nat
-  | .nat, .int => some .int
-  | .int, .nat => some .int
-  | .int, .int => some .int
-  | .timestamp, .int => some .timestamp
-  | .int, .timestamp => some .timestamp
-  | .mutez, .mutez => some .mutez
-  | _, _ => none
+def addTy (a b : Ty) : Option Ty := dispatch1 Generated.C01.addTable [a, b]
 
-def subTy : Ty → Ty → Option Ty
-  | .nat, .nat => some .int
-  | .nat, .int => some .int
-  | .int, .nat => some .int
-  | .int, .int => some .int
-  | .timestamp, .int => some .timestamp
-  | .timestamp, .timestamp => some .int
-  | .mutez, .mutez => some .mutez
-  | _, _ => none
+def subTy (a b : Ty) : Option Ty := dispatch1 Generated.C01.subTable [a, b]
 
-def mulTy : Ty → Ty → Option Ty
-  | .nat, .nat => some .nat
-  | .nat, .int => some .int
-  | .int, .nat => some .int
-  | .int, .int => some .int
-  | .mutez, .nat => some .mutez
-  | .nat, .mutez => some .mutez
-  | _, _ => none
+def mulTy (a b : Ty) : Option Ty := dispatch1 Generated.C01.mulTable [a, b]
+
+def negTy (a : Ty) : Option Ty := dispatch1 Generated.C01.negTable [a]
 
 /-- `dispatch_types` table of EDIV: (quotient class, remainder class) -/
-def edivTy : Ty → Ty → Option (Ty × Ty)
-  | .nat, .nat => some (.nat, .nat)
-  | .nat, .int => some (.int, .nat)
-  | .int, .nat => some (.int, .nat)
-  | .int, .int => some (.int, .nat)
-  | .mutez, .nat => some (.mutez, .mutez)
-  | .mutez, .mutez => some (.nat, .mutez)
-  | _, _ => none
+def edivTy (a b : Ty) : Option (Ty × Ty) :=
+  match dispatch Generated.C01.edivTable [a, b] with
+  | some [q, r] =>
+    match tyOfPrim q, tyOfPrim r with
+    | some tq, some tr => some (tq, tr)
+    | _, _ => none
+  | _ => none
+
+/-- a row `(res_type, convert)` of boolean.py / generic.py -/
+def convRow (table : Option (List (List Prim × (Prim × Conv)))) (args : List Ty) : Option (Ty × Conv) :=
+  match dispatch table args with
+  | some (r, c) => (tyOfPrim r).map fun t => (t, c)
+  | none => none
+
+/-- the operand classes an `assert_type_in(…)` / `assert_type_equal(…)` accepts, read from the source -/
+def classIn (classes : Option (List Prim)) (t : Ty) : Bool :=
+  match classes, primOf t with
+  | some cs, some p => cs.contains p
+  | _, _ => false
 
 /-- EDIV's arithmetic: `q, r = divmod(a, b)` (floors), then `if r < 0: r += abs(b); q += 1` -/
 def pyEdiv (a b : Int) : Int × Int :=
@@ -138,11 +208,14 @@ def pyXor : Int → Int → Int
   | .ofNat m, .negSucc n => Int.negSucc (m ^^^ n)
   | .negSucc m, .negSucc n => Int.ofNat (m ^^^ n)
 
-/-- `execute_shift`: both operands `nat`, `assert int(b) < 257`; Python rejects a negative shift count -/
+/-- `execute_shift`: both operands `nat`, `assert int(b) < 257` (the bound is read from the source); Python rejects a
+negative shift count -/
 def execShift (shift : Int → Nat → Int) (a b : Val) : Res Val :=
   match a, b with
   | .num .nat x, .num .nat y =>
-    if y < 257 then (if y < 0 then .stuck else numFromValue .nat (shift x y.toNat)) else .rtfail
+    match Generated.C01.shiftLimit with
+    | some limit => if y < (limit : Int) then (if y < 0 then .stuck else numFromValue .nat (shift x y.toNat)) else .rtfail
+    | none => .stuck
   | _, _ => .stuck
 
 /-- Python `<` on two lists of ints (str / bytes comparison) -/
@@ -237,27 +310,50 @@ def execSubMutez (a b : Val) : Res Val :=
     else do let r ← numFromValue .mutez (x - y); pure (.some r)
   | _, _ => .stuck
 
+/-- `res_type.from_value(op(convert(a), convert(b)))` for a row `(res_type, convert)`: `bool` on two booleans, `int` on two
+numbers; any other combination is not part of the model -/
+def execBitwise (table : Option (List (List Prim × (Prim × Conv)))) (opB : Bool → Bool → Bool) (opI : Int → Int → Int)
+    (a b : Val) : Res Val :=
+  match convRow table [typeOf a, typeOf b] with
+  | some (.bool, .bool) =>
+    match a, b with
+    | .bool x, .bool y => .ok (.bool (opB x y))
+    | _, _ => .stuck
+  | some (rt, .int) =>
+    match a, b with
+    | .num _ x, .num _ y => numFromValue rt (opI x y)
+    | _, _ => .stuck
+  | _ => .stuck
+
 /-- AND after `pop2`: `dispatch_types` {(bool,bool), (nat,nat), (nat,int), (int,nat)} then `from_value(convert(a) & convert(b))` -/
-def execAnd (a b : Val) : Res Val :=
-  match a, b with
-  | .bool x, .bool y => .ok (.bool (x && y))
-  | .num .nat x, .num .nat y => numFromValue .nat (pyAnd x y)
-  | .num .nat x, .num .int y => numFromValue .nat (pyAnd x y)
-  | .num .int x, .num .nat y => numFromValue .nat (pyAnd x y)
-  | _, _ => .stuck
+def execAnd (a b : Val) : Res Val := execBitwise Generated.C01.andTable (· && ·) pyAnd a b
 
 /-- OR / XOR (`execute_boolean_add`): {(bool,bool), (nat,nat)} -/
-def execOr (a b : Val) : Res Val :=
-  match a, b with
-  | .bool x, .bool y => .ok (.bool (x || y))
-  | .num .nat x, .num .nat y => numFromValue .nat (pyOr x y)
-  | _, _ => .stuck
+def execOr (a b : Val) : Res Val := execBitwise Generated.C01.boolAddTable (· || ·) pyOr a b
 
-def execXor (a b : Val) : Res Val :=
-  match a, b with
-  | .bool x, .bool y => .ok (.bool (x != y))
-  | .num .nat x, .num .nat y => numFromValue .nat (pyXor x y)
-  | _, _ => .stuck
+def execXor (a b : Val) : Res Val := execBitwise Generated.C01.boolAddTable (· != ·) pyXor a b
+
+/-- NOT after `pop1`: `res_type.from_value(convert(a))` with `convert` = `lambda x: ~int(x)` / `lambda x: not bool(x)` -/
+def execNot (a : Val) : Res Val :=
+  match convRow Generated.C01.notTable [typeOf a] with
+  | some (.bool, .not) =>
+    match a with
+    | .bool x => .ok (.bool (!x))
+    | _ => .stuck
+  | some (rt, .invert) =>
+    match a with
+    | .num _ x => numFromValue rt (-x - 1)
+    | _ => .stuck
+  | _ => .stuck
+
+/-- NEG after `pop1`: `res_type.from_value(-int(a))` for the integer classes -/
+def execNeg (a : Val) : Res Val :=
+  match a with
+  | .num ta x =>
+    match negTy ta with
+    | some t => numFromValue t (-x)
+    | none => .stuck
+  | _ => .stuck
 
 /-- `a == b` (`__eq__`) on the key classes of the model: `IntType` and its subclasses compare their values
 (`isinstance(other, IntType)`), strings / bytes / booleans their contents, `UnitType` is equal to itself -/
@@ -358,6 +454,69 @@ def bytesVals : List Val → Option (List (List Nat))
   | .bytes s :: rest => (bytesVals rest).map (s :: ·)
   | _ => none
 
+/-- `len(src)` of the classes with a `__len__` -/
+def valLen : Val → Option Nat
+  | .str x => some x.length
+  | .bytes x => some x.length
+  | .list _ xs => some xs.length
+  | .map _ _ xs => some xs.length
+  | .set _ xs => some xs.length
+  | _ => none
+
+/-- SIZE after `pop1`: `src.assert_type_in(…)` (classes read from the source), `NatType.from_value(len(src))` -/
+def execSize (a : Val) : Res Val :=
+  if classIn Generated.C01.sizeClasses (typeOf a) then
+    match valLen a with
+    | some n => numFromValue .nat n
+    | none => .stuck
+  else .stuck
+
+/-- CONCAT on a list: `dispatch_types(a.args[0], …)` on the element class, `res_type.from_value(delim.join(map(convert, a)))` -/
+def execConcatList (t : Ty) (xs : List Val) : Res Val :=
+  match convRow Generated.C01.concatListTable [t] with
+  | some (.string, .str) =>
+    match strVals xs with
+    | some ss => .ok (.str ss.flatten)
+    | none => .stuck
+  | some (.bytes, .bytes) =>
+    match bytesVals xs with
+    | some ss => .ok (.bytes ss.flatten)
+    | none => .stuck
+  | _ => .stuck
+
+/-- CONCAT on two operands: `res_type.from_value(convert(a) + convert(b))` -/
+def execConcatPair (a b : Val) : Res Val :=
+  match convRow Generated.C01.concatPairTable [typeOf a, typeOf b] with
+  | some (.string, .str) =>
+    match a, b with
+    | .str x, .str y => .ok (.str (x ++ y))
+    | _, _ => .stuck
+  | some (.bytes, .bytes) =>
+    match a, b with
+    | .bytes x, .bytes y => .ok (.bytes (x ++ y))
+    | _, _ => .stuck
+  | _ => .stuck
+
+/-- SLICE after `pop3`: `offset.assert_type_equal(…)`, `length.assert_type_equal(…)`, `s.assert_type_in(…)` (classes read
+from the source), then `s[start:stop]` when `0 <= start < len(s) and stop <= len(s)` -/
+def execSlice (o l v : Val) : Res Val :=
+  if classIn Generated.C01.sliceOffsetClass (typeOf o) && classIn Generated.C01.sliceLengthClass (typeOf l)
+      && classIn Generated.C01.sliceClasses (typeOf v) then
+    match o, l with
+    | .num _ off, .num _ len =>
+      let start := off.toNat
+      let stop := off.toNat + len.toNat
+      match v with
+      | .str x =>
+        if start < x.length ∧ stop ≤ x.length then .ok (.some (.str ((x.drop start).take len.toNat)))
+        else .ok (.none .string)
+      | .bytes x =>
+        if start < x.length ∧ stop ≤ x.length then .ok (.some (.bytes ((x.drop start).take len.toNat)))
+        else .ok (.none .bytes)
+      | _ => .stuck
+    | _, _ => .stuck
+  else .stuck
+
 /-- further instructions without sub-programs (kept apart from `step` so that either pattern match stays small) -/
 def stepMore (env : Env) (i : Instr) (s : Stack) : Res Stack :=
   match i with
@@ -413,18 +572,24 @@ def step (env : Env) (i : Instr) (s : Stack) : Res Stack :=
       | .pair a b => pure ((s.push b).push a)
       | _ => .stuck
   | .PAIRN n =>
-      if n < 2 then .stuck      -- `assert count >= 2`
-      else do
-        let (leaves, s) ← s.pop n
-        let r ← fromComb leaves
-        pure (s.push r)
+      match Generated.C01.pairnMin with
+      | some m =>
+        if n < m then .stuck      -- `assert count >= 2` (the bound is read from the source)
+        else do
+          let (leaves, s) ← s.pop n
+          let r ← fromComb leaves
+          pure (s.push r)
+      | none => .stuck
   | .UNPAIRN n =>
-      if n < 2 then .stuck
-      else do
-        let (p, s) ← s.pop1
-        match p with
-        | .pair _ _ => pure ((unpairnComb (n - 2) p).reverse.foldl Stack.push s)
-        | _ => .stuck
+      match Generated.C01.unpairnMin, Generated.C01.unpairnCombOffset with
+      | some m, some off =>
+        if n < m then .stuck
+        else do
+          let (p, s) ← s.pop1
+          match p with
+          | .pair _ _ => pure ((unpairnComb (n - off) p).reverse.foldl Stack.push s)
+          | _ => .stuck
+      | _, _ => .stuck
   | .GETN n => do
       let (p, s) ← s.pop1
       if n = 0 then pure (s.push p)      -- `GET 0` is the identity on any value
@@ -469,15 +634,7 @@ def step (env : Env) (i : Instr) (s : Stack) : Res Stack :=
       let (a, b, c, s) ← s.pop3
       let r ← execGetAndUpdate a b c
       pure ((s.push r.2).push r.1)
-  | .SIZE => do
-      let (a, s) ← s.pop1
-      match a with
-      | .str x => pure (s.push (.num .nat x.length))
-      | .bytes x => pure (s.push (.num .nat x.length))
-      | .list _ xs => pure (s.push (.num .nat xs.length))
-      | .map _ _ xs => pure (s.push (.num .nat xs.length))
-      | .set _ xs => pure (s.push (.num .nat xs.length))
-      | _ => .stuck
+  | .SIZE => do let (a, s) ← s.pop1; let r ← execSize a; pure (s.push r)
   | .ADD => do
       let (a, b, s) ← s.pop2
       match a, b with
@@ -506,12 +663,7 @@ def step (env : Env) (i : Instr) (s : Stack) : Res Stack :=
   | .LSL => do let (a, b, s) ← s.pop2; let r ← execShift (fun x n => x <<< n) a b; pure (s.push r)
   | .LSR => do let (a, b, s) ← s.pop2; let r ← execShift (fun x n => x >>> n) a b; pure (s.push r)
   | .SUB_MUTEZ => do let (a, b, s) ← s.pop2; let r ← execSubMutez a b; pure (s.push r)
-  | .NEG => do
-      let (a, s) ← s.pop1
-      match a with
-      | .num .int x => pure (s.push (.num .int (-x)))
-      | .num .nat x => pure (s.push (.num .int (-x)))
-      | _ => .stuck
+  | .NEG => do let (a, s) ← s.pop1; let r ← execNeg a; pure (s.push r)
   | .ABS => do
       let (a, s) ← s.pop1
       match a with
@@ -552,49 +704,19 @@ def step (env : Env) (i : Instr) (s : Stack) : Res Stack :=
   | .GE => do
       let (a, s) ← s.pop1
       match a with | .num .int x => pure (s.push (.bool (x ≥ 0))) | _ => .stuck
-  | .NOT => do
-      let (a, s) ← s.pop1
-      match a with
-      | .bool x => pure (s.push (.bool (!x)))
-      | .num .nat x => pure (s.push (.num .int (-x - 1)))
-      | .num .int x => pure (s.push (.num .int (-x - 1)))
-      | _ => .stuck
+  | .NOT => do let (a, s) ← s.pop1; let r ← execNot a; pure (s.push r)
   | .AND => do let (a, b, s) ← s.pop2; let r ← execAnd a b; pure (s.push r)
   | .OR => do let (a, b, s) ← s.pop2; let r ← execOr a b; pure (s.push r)
   | .XOR => do let (a, b, s) ← s.pop2; let r ← execXor a b; pure (s.push r)
   | .CONCAT => do
       let (a, s) ← s.pop1
       match a with
-      | .list .string xs =>
-        match strVals xs with
-        | some ss => pure (s.push (.str ss.flatten))
-        | none => .stuck
-      | .list .bytes xs =>
-        match bytesVals xs with
-        | some ss => pure (s.push (.bytes ss.flatten))
-        | none => .stuck
-      | .str x => do
+      | .list t xs => do let r ← execConcatList t xs; pure (s.push r)
+      | _ => do
         let (b, s) ← s.pop1
-        match b with | .str y => pure (s.push (.str (x ++ y))) | _ => .stuck
-      | .bytes x => do
-        let (b, s) ← s.pop1
-        match b with | .bytes y => pure (s.push (.bytes (x ++ y))) | _ => .stuck
-      | _ => .stuck
-  | .SLICE => do
-      let (o, l, v, s) ← s.pop3
-      match o, l with
-      | .num .nat off, .num .nat len =>
-        let start := off.toNat
-        let stop := off.toNat + len.toNat
-        match v with
-        | .str x =>
-          if start < x.length ∧ stop ≤ x.length then pure (s.push (.some (.str ((x.drop start).take len.toNat))))
-          else pure (s.push (.none .string))
-        | .bytes x =>
-          if start < x.length ∧ stop ≤ x.length then pure (s.push (.some (.bytes ((x.drop start).take len.toNat))))
-          else pure (s.push (.none .bytes))
-        | _ => .stuck
-      | _, _ => .stuck
+        let r ← execConcatPair a b
+        pure (s.push r)
+  | .SLICE => do let (o, l, v, s) ← s.pop3; let r ← execSlice o l v; pure (s.push r)
   | .AMOUNT => do let r ← numFromValue .mutez env.amount; pure (s.push r)
   | .BALANCE => do let r ← numFromValue .mutez env.balance; pure (s.push r)
   | .SENDER => pure (s.push (.atom .address env.sender))
